@@ -174,10 +174,16 @@ Proof.
   { specialize (R r L). destruct (aget N.eqb r rt), (aget N.eqb r rt'); simpl in R; try contradiction; auto. apply rn_rel_refl. }
   eapply rq_bind; [apply HF; apply rn_update_rel; exact R0|].
   intros [a' xa] [b' xb] [H1 H2]; simpl in *. split; auto.
-  intros q Lq. rewrite !aget_aset_N. destruct (q =? r); simpl; auto.
-  rewrite !root_update_aget_any. destruct (keep_round pm pl q); simpl; auto.
-  destruct (q =? r) eqn:E; [discriminate|]. apply R; auto.
+  intros q Lq. rewrite !aget_aset_N. destruct (q =? r) eqn:E; simpl; auto.
+  rewrite !root_update_aget_any, E. destruct (keep_round pm pl q); simpl; auto.
 Qed.
+
+Lemma rq_false_l : forall A B (R : A -> B -> Prop) (x : res A) (y : res B),
+  (forall a, x <> Ok a) -> rq false R x y.
+Proof. intros A B R [a|t|] [b|t'|] H; simpl; auto. exfalso; eapply H; eauto. Qed.
+Lemma rq_false_r : forall A B (R : A -> B -> Prop) (x : res A) (y : res B),
+  (forall b, y <> Ok b) -> rq false R x y.
+Proof. intros A B R [a|t|] [b|t'|] H; simpl; auto. exfalso; eapply H; eauto. Qed.
 
 (* a dispatch to a round below [cur] leaves the relation on the rounds >= cur intact, whatever it does *)
 Lemma with_round_old : forall A B pm pl cur r p rt rt' (f : roundNode -> res (roundNode * A)) (g : roundNode -> res (roundNode * B)),
@@ -185,11 +191,217 @@ Lemma with_round_old : forall A B pm pl cur r p rt rt' (f : roundNode -> res (ro
   rq false (fun x y => rt_rel cur (fst x) (fst y)) (with_round pm pl r p rt f) (with_round pm pl r p rt' g).
 Proof.
   intros A B pm pl cur r p rt rt' f g R L. unfold with_round.
-  destruct (aget N.eqb r (root_update pm pl r rt)) as [a|]; [|destruct (aget N.eqb r (root_update pm pl r rt')); simpl; auto;
-     destruct (bind _ _); simpl; auto].
-  destruct (aget N.eqb r (root_update pm pl r rt')) as [b|]; [|simpl; destruct (bind _ _); simpl; auto].
-  destruct (f (rn_update pl p a)) as [[a' xa]| |]; simpl; auto;
-    destruct (g (rn_update pl p b)) as [[b' xb]| |]; simpl; auto.
-  intros q Lq. rewrite !aget_aset_N. assert (E : (q =? r) = false) by (apply N.eqb_neq; lia). rewrite E.
-  rewrite !root_update_aget_any, E. destruct (keep_round pm pl q); simpl; auto. apply R; auto.
+  destruct (aget N.eqb r (root_update pm pl r rt)) as [a|]; [|apply rq_false_l; intros; discriminate].
+  destruct (aget N.eqb r (root_update pm pl r rt')) as [b|]; [|apply rq_false_r; intros; discriminate].
+  destruct (f (rn_update pl p a)) as [[a' xa]| |]; [|apply rq_false_l; intros; discriminate|apply rq_false_l; intros; discriminate].
+  destruct (g (rn_update pl p b)) as [[b' xb]| |]; [|apply rq_false_r; intros; discriminate|apply rq_false_r; intros; discriminate].
+  simpl. intros q Lq. rewrite !aget_aset_N. assert (E : (q =? r) = false) by (apply N.eqb_neq; lia). rewrite E.
+  rewrite !root_update_aget_any, E. destruct (keep_round pm pl q); simpl; auto.
+Qed.
+
+(* ---------- vote machines: they never look at the proposal tracker ---------- *)
+Definition prel {A B C D} (R : A -> B -> Prop) (S : C -> D -> Prop) (x : A * C) (y : B * D) : Prop :=
+  R (fst x) (fst y) /\ S (snd x) (snd y).
+
+Lemma pn_vote_accepted_rel : forall k pm a b x,
+  pn_rel a b -> rq k (prel pn_rel eq) (pn_vote_accepted pm a x) (pn_vote_accepted pm b x).
+Proof.
+  intros k pm a b x R. pose proof (pn_update_rel (vt_step x) a b R) as (P1 & V1 & S1).
+  unfold pn_vote_accepted. unfold pn_step. rewrite S1.
+  destruct (vt_checked_accept pm (ngetd vt_zero (vt_step x) (pn_steps (pn_update (vt_step x) b))) x) as [[t' oth]| |]; simpl; auto.
+  assert (R2 : pn_rel (pn_set_step (vt_step x) t' (pn_update (vt_step x) a)) (pn_set_step (vt_step x) t' (pn_update (vt_step x) b))).
+  { split; [|split]; simpl; auto. rewrite S1; auto. }
+  destruct oth as [th|]; simpl; [|split; auto].
+  destruct (s_next <=? th_step th); simpl; [|split; auto].
+  pose proof (pn_update_rel 0 _ _ R2) as (P3 & V3 & S3).
+  split; simpl; auto. split; [|split]; simpl; auto. rewrite V3; auto.
+Qed.
+
+Lemma rn_vote_accepted_rel : forall k pm pl a b x,
+  rn_rel a b -> rq k (prel rn_rel eq) (rn_vote_accepted pm pl a x) (rn_vote_accepted pm pl b x).
+Proof.
+  intros k pm pl a b x R. unfold rn_vote_accepted.
+  eapply rq_bind.
+  - apply (with_period_rel k _ eq pl (vt_per x) 0 a b); auto. intros pa pb P. apply pn_vote_accepted_rel; auto.
+  - intros [a2 oa] [b2 ob] [R2 E]; simpl in *. subst ob.
+    destruct oa as [th|]; [|apply rq_ok; split; auto].
+    pose proof (rn_update_rel pl 0 a2 b2 R2) as R3. destruct R3 as (S3 & F3 & P3).
+    cbv zeta. cbn [rn_fresh rn_update] in F3 |- *.
+    eapply rq_bind.
+    + rewrite F3. apply rq_refl. intros; reflexivity.
+    + intros f1 f2 E; subst f2. destruct f1; apply rq_ok; split; simpl; auto.
+      * split; [|split]; simpl; auto.
+      * split; [|split]; auto.
+Qed.
+
+(* reading from a period node something that does not depend on the proposal tracker's late fields *)
+Lemma with_period_read_rel : forall k A pl p s a b (g : periodNode -> A),
+  rn_rel a b -> (forall pa pb, pn_rel pa pb -> g pa = g pb) ->
+  rq k (prel rn_rel eq) (with_period pl p s a (fun pn => Ok (pn, g pn))) (with_period pl p s b (fun pn => Ok (pn, g pn))).
+Proof.
+  intros k A pl p s a b g R HG. apply (with_period_rel k _ eq); auto.
+  intros pa pb P. apply rq_ok. split; simpl; auto.
+Qed.
+
+(* ---------- proposal tracker ---------- *)
+Definition pv_rel (a b : pvres) : Prop :=
+  match a, b with
+  | PVFiltered _, PVFiltered _ => True
+  | _, _ => a = b
+  end.
+Lemma pv_rel_refl : forall a, pv_rel a a. Proof. destruct a; simpl; auto. Qed.
+
+Lemma sk_accept_rel : forall a b v,
+  sk_rel a b ->
+  let '(na, ea, erra) := sk_accept a v in
+  let '(nb, eb, errb) := sk_accept b v in
+  sk_rel na nb /\ erra = errb.
+Proof.
+  intros a b v (L & F & Z). unfold sk_accept. rewrite <- Z, <- F, <- L.
+  destruct (sk_frozen a).
+  - destruct (negb (sk_haslate a) || cred_less v (sk_late a)); destruct (negb (sk_haslate b) || cred_less v (sk_late b));
+      simpl; repeat split; auto.
+  - destruct (sk_filled a && negb (cred_less v (sk_lowest a))); simpl; repeat split; auto.
+Qed.
+
+Lemma pt_vote_rel : forall a b v, pt_rel a b -> pt_rel (fst (pt_vote a v)) (fst (pt_vote b v)) /\ pv_rel (snd (pt_vote a v)) (snd (pt_vote b v)).
+Proof.
+  intros a b v (D & S & G & C1 & C2 & C3 & C4). unfold pt_vote. rewrite <- D, <- G.
+  destruct (existsb (N.eqb (vt_snd v)) (pt_dup a)); simpl; [split; [repeat split; auto|exact I]|].
+  pose proof (sk_accept_rel (pt_freezer a) (pt_freezer b) v S) as H.
+  destruct (sk_accept (pt_freezer a) v) as [[na ea] erra]. destruct (sk_accept (pt_freezer b) v) as [[nb eb] errb].
+  destruct H as [(L1 & F1 & Z1) E]. subst errb. destruct S as (L & F & Z).
+  destruct (negb (is_bottom (pt_staging a))); simpl; [split; [repeat split; auto|exact I]|].
+  destruct erra; simpl; split; try exact I; repeat split; auto.
+Qed.
+
+Lemma pt_checked_vote_rel : forall k a b v,
+  pt_rel a b -> rq k (prel pt_rel pv_rel) (pt_checked_vote a v) (pt_checked_vote b v).
+Proof.
+  intros k a b v R. pose proof (pt_vote_rel a b v R) as [R1 P1].
+  destruct R as (D & S & G & C1 & C2 & C3 & C4). unfold pt_checked_vote.
+  destruct (pt_vote a v) as [ta oa]; destruct (pt_vote b v) as [tb ob]; simpl in *.
+  rewrite <- C1, <- C2, <- C3, <- C4.
+  assert (EA : match oa with PVAccepted _ _ => true | _ => false end = match ob with PVAccepted _ _ => true | _ => false end).
+  { destruct oa, ob; simpl in P1; try discriminate; auto. }
+  rewrite <- EA.
+  destruct (negb (pc_one a) && negb (pc_froze a) && negb (pc_soft a) && negb (pc_cert a) && negb _); [apply rq_panic|].
+  destruct ((pc_froze a || pc_soft a || pc_cert a) && _); [apply rq_panic|].
+  apply rq_ok. split; simpl; auto.
+  destruct R1 as (D1 & S1 & G1 & K1 & K2 & K3 & K4). repeat split; simpl; auto; apply S1.
+Qed.
+
+Lemma pt_checked_freeze_rel : forall k a b,
+  pt_rel a b -> rq k (prel pt_rel eq) (pt_checked_freeze a) (pt_checked_freeze b).
+Proof.
+  intros k a b (D & (L & F & Z) & G & C1 & C2 & C3 & C4). unfold pt_checked_freeze.
+  rewrite <- C2, <- C1, <- L. destruct (pc_froze a); [apply rq_panic|].
+  destruct (negb (pc_one a) && negb (is_bottom (vt_val (sk_lowest (pt_freezer a))))); [apply rq_panic|].
+  apply rq_ok. split; simpl; auto. repeat split; simpl; auto.
+Qed.
+
+Lemma pt_checked_threshold_rel : forall k a b th,
+  pt_rel a b -> rq k (prel pt_rel eq) (pt_checked_threshold a th) (pt_checked_threshold b th).
+Proof.
+  intros k a b th (D & S & G & C1 & C2 & C3 & C4). unfold pt_checked_threshold.
+  destruct (th_t th).
+  - rewrite <- C3. destruct (pc_soft a); [apply rq_panic|]. destruct (is_bottom (th_val th)); [apply rq_panic|].
+    apply rq_ok; split; simpl; auto. repeat split; simpl; auto; apply S.
+  - apply rq_ok; split; simpl; auto. repeat split; simpl; auto; apply S.
+  - apply rq_panic.
+Qed.
+
+Lemma pn_pt_op_rel : forall k A (RA : A -> A -> Prop) a b (f : ptracker -> res (ptracker * A)),
+  pn_rel a b ->
+  (forall ta tb, pt_rel ta tb -> rq k (prel pt_rel RA) (f ta) (f tb)) ->
+  rq k (prel pn_rel RA) (pn_pt_op f a) (pn_pt_op f b).
+Proof.
+  intros k A RA a b f (P & V & S) HF. unfold pn_pt_op.
+  eapply rq_bind; [apply HF; exact P|].
+  intros [ta xa] [tb xb] [H1 H2]; simpl in *. apply rq_ok. split; simpl; auto. split; [|split]; simpl; auto.
+Qed.
+
+(* ---------- proposal store ---------- *)
+Lemma rn_set_store_rel : forall st a b, rn_rel a b -> rn_rel (rn_set_store st a) (rn_set_store st b).
+Proof. intros st a b (S & F & P). split; [|split]; simpl; auto. Qed.
+
+Lemma pt_staging_rel : forall pa pb, pn_rel pa pb -> pt_staging (pn_pt pa) = pt_staging (pn_pt pb).
+Proof. intros pa pb ((D & S & G & _) & _); auto. Qed.
+
+Lemma rn_read_staging_rel : forall k pl p a b,
+  rn_rel a b -> rq k (prel rn_rel eq) (rn_read_staging pl p a) (rn_read_staging pl p b).
+Proof.
+  intros k pl p a b R. unfold rn_read_staging.
+  eapply rq_bind; [apply (with_period_read_rel k _ pl p 0 a b (fun pn => pt_staging (pn_pt pn))); auto; apply pt_staging_rel|].
+  intros [a1 va] [b1 vb] [R1 E]; simpl in *. subst vb. apply rq_ok. split; simpl; auto.
+  destruct R1 as (S1 & _). rewrite S1. reflexivity.
+Qed.
+
+Lemma rn_staged_value_rel : forall k pl p a b,
+  rn_rel a b -> rq k (prel rn_rel eq) (rn_staged_value pl p a) (rn_staged_value pl p b).
+Proof. intros. unfold rn_staged_value. apply rn_read_staging_rel. apply rn_update_rel; auto. Qed.
+
+Lemma rn_store_vote_rel : forall k pl a b v,
+  rn_rel a b -> rq k (prel rn_rel pv_rel) (rn_store_vote pl a v) (rn_store_vote pl b v).
+Proof.
+  intros k pl a b v R. unfold rn_store_vote.
+  eapply rq_bind.
+  - apply (with_period_rel k _ pv_rel pl (vt_per v) 0 a b); auto. intros pa pb P.
+    apply pn_pt_op_rel; auto. intros ta tb T. apply pt_checked_vote_rel; auto.
+  - intros [a1 ea] [b1 eb] [R1 E]; simpl in *.
+    destruct ea as [|na| |prop ok]; destruct eb as [|nb| |prop' ok']; simpl in E; try discriminate;
+      try (apply rq_ok; split; simpl; auto; fail).
+    inversion E; subst prop' ok'. destruct R1 as (S1 & F1 & P1). rewrite S1.
+    apply rq_ok. split; simpl; auto. split; [|split]; simpl; auto.
+Qed.
+
+Lemma rn_store_payload_present_rel : forall pl a b pv,
+  rn_rel a b ->
+  rn_rel (fst (rn_store_payload_present pl a pv)) (fst (rn_store_payload_present pl b pv)) /\
+  snd (rn_store_payload_present pl a pv) = snd (rn_store_payload_present pl b pv).
+Proof.
+  intros pl a b pv R. pose proof R as (S & F & P). unfold rn_store_payload_present. rewrite S.
+  destruct (aget value_eqb pv (ps_asm (rn_store b))) as [ea|]; simpl; auto.
+  destruct (as_assembled ea); simpl; auto. destruct (as_filled ea); simpl; auto.
+  destruct (ps_last_relevant _ pv); simpl. split; auto. apply rn_set_store_rel; auto.
+Qed.
+
+Lemma rn_store_payload_verified_rel : forall k pl a b pv,
+  rn_rel a b -> rq k (prel rn_rel eq) (rn_store_payload_verified pl a pv) (rn_store_payload_verified pl b pv).
+Proof.
+  intros k pl a b pv R. pose proof R as (S & F & P). unfold rn_store_payload_verified. rewrite S.
+  destruct (aget value_eqb pv (ps_asm (rn_store b))) as [ea|]; [|apply rq_ok; split; auto].
+  destruct (as_assembled ea); [apply rq_ok; split; auto|].
+  eapply rq_bind; [apply rn_staged_value_rel; apply rn_set_store_rel; exact R|].
+  intros [a2 [sv c]] [b2 [sv' c']] [R2 E]; simpl in *. inversion E; subst.
+  destruct (value_eqb sv' pv); apply rq_ok; split; auto.
+Qed.
+
+Lemma rn_store_new_period_rel : forall k pl a b target starting,
+  rn_rel a b -> rq k rn_rel (rn_store_new_period pl a target starting) (rn_store_new_period pl b target starting).
+Proof.
+  intros k pl a b target starting R. unfold rn_store_new_period.
+  eapply rq_bind; [apply rn_staged_value_rel; exact R|].
+  intros [a1 [sa ca]] [b1 [sb cb]] [R1 E]; simpl in *. inversion E; subst.
+  pose proof R1 as (S1 & _). rewrite S1. apply rq_ok. apply rn_set_store_rel; auto.
+Qed.
+
+Lemma rn_store_threshold_rel : forall k pl a b th,
+  rn_rel a b -> rq k (prel rn_rel eq) (rn_store_threshold pl a th) (rn_store_threshold pl b th).
+Proof.
+  intros k pl a b th R. unfold rn_store_threshold.
+  eapply rq_bind.
+  - apply (with_period_rel k _ eq pl (th_per th) 0 a b); auto. intros pa pb P.
+    apply pn_pt_op_rel; auto. intros ta tb T. apply pt_checked_threshold_rel; auto.
+  - intros [a1 pa] [b1 pb] [R1 E]; simpl in *. subst pb. pose proof R1 as (S1 & _). rewrite S1.
+    destruct (as_assembled (ps_asm_get (rn_store b1) pa)); apply rq_ok; split; simpl; auto.
+    apply rn_set_store_rel; auto.
+Qed.
+
+Lemma rn_store_read_lowest_rel : forall k pl a b per,
+  rn_rel a b -> rq k rn_rel (rn_store_read_lowest pl a per) (rn_store_read_lowest pl b per).
+Proof.
+  intros k pl a b per R. unfold rn_store_read_lowest.
+  eapply rq_bind; [apply (with_period_read_rel k _ pl per 0 a b (fun _ => tt)); auto|].
+  intros [a1 ua] [b1 ub] [R1 _]; simpl in *. apply rq_ok; auto.
 Qed.
